@@ -652,6 +652,55 @@ def check_point(desc, ctx):
     f.raise_if_any(f"point isotherm ({len(marks)} rows, {n_des} desorption marks, branch={desc['branch_kind']})")
 
 
+
+# ---------------------------------------------------------------------------------------------------------------------
+# 4. isotherms brought into their representation by a permanent conversion (labels such as loading_unit = None for
+#    fraction / percent and pressure_unit = None for relative modes come from convert_*, not from the constructor)
+def strat_converted():
+    from pbt import strategies as S
+    return st.builds(lambda iso, p, l, m, t: {"iso": iso, "to_p": p, "to_l": l, "to_m": m, "to_t": t},
+                     S.point_desc(min_points=1, max_points=8, allow_fraction=True),
+                     st.one_of(st.none(), S.p_rep()), st.sampled_from([None, ("fraction", None), ("percent", None),
+                                                                       ("fraction", None), ("percent", None), ("molar", "mol"),
+                                                                       ("volume_liquid", "cm3")]),
+                     st.one_of(st.none(), S.m_rep()), st.sampled_from([None, "K", "°C"]))
+
+
+def check_converted(desc, ctx):
+    from pbt import case as K
+    K.reset_registries()
+    x = K.build_point(desc["iso"])
+    if desc["to_p"]:
+        x.convert_pressure(mode_to=desc["to_p"][0], unit_to=desc["to_p"][1])
+    if desc["to_m"]:
+        x.convert_material(basis_to=desc["to_m"][0], unit_to=desc["to_m"][1])
+    if desc["to_l"]:
+        x.convert_loading(basis_to=desc["to_l"][0], unit_to=desc["to_l"][1])
+    if desc["to_t"]:
+        x.convert_temperature(desc["to_t"])
+    units = dict(x.units)
+    doc = x.to_json()
+    r = isotherm_from_json(doc)
+    if dict(r.units) != units:
+        diff = {k: (units[k], r.units[k]) for k in units if units[k] != r.units[k]}
+        raise Violation(f"isotherm converted to {units}: unit labels after the JSON round trip differ: {diff}",
+                        tag="converted_units")
+    if r.iso_id != x.iso_id or not (r == x):
+        raise Violation(f"isotherm converted to {units}: re-imported isotherm is not equal to the original (id "
+                        f"{x.iso_id} -> {r.iso_id})", tag="converted_id")
+    td = typed_diff(x.to_dict(), r.to_dict())
+    if td:
+        raise Violation(f"isotherm converted to {units}: to_dict differs after the round trip: {td}", tag="converted_dict")
+    for c in x.data_raw.columns:
+        a, b = x.data_raw[c].tolist(), r.data_raw[c].tolist()
+        if a != b:
+            raise Violation(f"isotherm converted to {units}: column {c!r} differs after the round trip", tag="converted_data")
+    if r.to_json() != doc:
+        raise Violation(f"isotherm converted to {units}: re-export differs from the first document", tag="converted_fixed_point")
+    ctx.label("lu_none" if units["loading_unit"] is None else "lu_set", "pu_none" if units["pressure_unit"] is None else "pu_set")
+    ctx.nt([units, desc["iso"]["pressure"], desc["iso"]["loading"]], desc)
+
+
 # ---------------------------------------------------------------------------------------------------------------------
 # 3. model isotherms
 def _lu(lo, hi):
@@ -828,4 +877,7 @@ CHECKS = [
           rule="point isotherms: 1-60 rows, all branch assignments, extra columns, custom keys, row labels"),
     Check("model", check_model, strategy=model_strategy, budget={"quick": 1200, "thorough": 16000}, shrink_quick=False,
           rule="all 16 models from an instance, 11 models fitted; name, parameters, ranges, rmse, 16 predictions"),
+    Check("converted_point", check_converted, strategy=strat_converted, budget={"quick": 1200, "thorough": 20000},
+          rule="point isotherms permanently converted (relative modes, fraction / percent, other material / temperature "
+               "units) before export: unit labels, id, typed dict, columns and document fixed point after the round trip"),
 ]
